@@ -78,6 +78,15 @@ def workload():
     for i, (x, y, inc) in enumerate([('', page, 'all'), (page, '', 'all'), ('', page, 'deletions'), ('  ', page, 'combined'), (page, '\n', 'insertions'), ('', '', 'all'),
                                      ('', page, 'insertions'), (page, '', 'deletions'), ('', page, 'all')]):
         cases.append(('blank-%d' % i, 'html_token', dict(a_text=x, b_text=y, include=inc)))
+    # a deleted script inside embedded SVG (its inert wrapper is moved out of the graphic): the same call several times in one process
+    fg_a = '<p>hello</p><svg width="4"><script>var s = 1;</script><circle r="2"></circle></svg><math><mi>x</mi><style>mi { color: red }</style></math>'
+    for rep_i in range(3):
+        cases.append(('foreign-deleted-%d' % rep_i, 'html_token', dict(a_text=fg_a, b_text='<p>hello</p>', include='all')))
+    # a Content-Type value with a comma in it (a repeated header, joined): the mapping given by the caller must come back unchanged
+    for i, ct in enumerate(['text/html, text/html; charset=utf-8', 'text/html; profile="a,b"', 'text/plain,text/html']):
+        hdr = {'Content-Type': ct, 'Vary': 'a, b'}
+        cases.append(('comma-header-%d' % i, 'html_token', dict(a_text='<p>one</p>', b_text='<p>two</p>', a_headers=hdr, b_headers=dict(hdr), include='combined')))
+        cases.append(('comma-header-links-%d' % i, 'links_json', dict(a_text='<a href="/x">x</a>', b_text='<a href="/y">x</a>', a_headers=hdr, b_headers=dict(hdr))))
     cases.append(('chain-back', 'html_token', dict(a_text=versions[2], b_text=versions[0], include='all')))
     for i, (a, b) in enumerate(link_pairs):
         hdr = headers[i % 3]
